@@ -277,6 +277,11 @@ func sameNode(a, b ast.Node) (same bool) {
 // several ranges per extensions/reserved statement (shared options), option
 // names with many parts, groups in oneofs and extend blocks, nested literals.
 var c24Extras = map[string]string{
+	// files that declare nothing (umbrella files): there is still a descriptor proto to copy
+	"extras/umbrella.proto":     "syntax = \"proto3\";\npackage extras.umbrella;\nimport public \"extras/ranges.proto\";\nimport \"google/protobuf/any.proto\";\n",
+	"extras/syntax_only.proto":  "syntax = \"proto2\";\n",
+	"extras/package_only.proto": "edition = \"2023\";\npackage extras.po;\n",
+	"extras/empty.proto":        "",
 	"extras/ranges.proto": `syntax = "proto2";
 package extras.ranges;
 import "google/protobuf/descriptor.proto";
@@ -472,7 +477,7 @@ func TestC24(t *testing.T) {
 	for _, n := range gen.SortedNames(c24Extras) {
 		var deps []string
 		for _, d := range []string{"extras/ranges.proto"} {
-			if n == "extras/p3.proto" {
+			if n == "extras/p3.proto" || n == "extras/umbrella.proto" {
 				deps = append(deps, d)
 			}
 		}
